@@ -12,6 +12,8 @@ Oracle: containment of the dynamic trace in BoundTemplate.analyze().
 
 from __future__ import annotations
 
+import itertools
+
 import re
 from typing import Any
 
@@ -505,9 +507,23 @@ def twice_in_block_cases():
                         yield {"kind": "matrix", "main": main, "partials": {"p": "[{{ b }}{{ " + name + " }}]"}, "datas": datas, "async": False, "async_analysis": len(main) % 2 == 0}
 
 
+def bound_twice_cases():
+    """One block binds the same name more than once (repeated keyword argument, repeated parameter, loop variable that is also an argument);
+    after the block the name is read where only the globals can answer."""
+    datas = [V.enc({"a": "GA", "b": "GB", "k": "GK", "x": "GX", "y": "GY", "xs": [1, 2]})]
+    for name in ("a", "k"):
+        for binder in ("{% with N: x, N: y %}[{{ N }}]{% endwith %}", "{% with N: 1, b: 2, N: 3 %}[{{ N }}]{% endwith %}", "{% include 'p', N: x, N: y %}", "{% render 'p', N: 1, N: 2 %}",
+                       "{% include 'p' with xs as N, N: y %}", "{% render 'p' for xs as N, N: y %}", "{% macro m N, N %}[{{ N }}]{% endmacro %}{% call m 1, 2 %}",
+                       "{% macro m N: 1, N: 2 %}[{{ N }}]{% endmacro %}{% call m %}", "{% with N: x %}{% with N: y %}[{{ N }}]{% endwith %}{% endwith %}",
+                       "{% for N in xs %}{% for N in xs %}[{{ N }}]{% endfor %}{% endfor %}"):
+            for after in ("({{ N }})", "({{ N.size }}){% if N %}y{% endif %}", "{% include 'p' %}", "{% for i in xs %}{{ N }}{% endfor %}"):
+                main = binder.replace("N", name) + after.replace("N", name)
+                yield {"kind": "matrix", "main": main, "partials": {"p": "[{{ b }}{{ " + name + " }}]"}, "datas": datas, "async": False, "async_analysis": len(main) % 2 == 0}
+
+
 def cases(ctx: core.Ctx):
     rng = ctx.rng("cases")
-    for i, c in enumerate(twice_in_block_cases()):
+    for i, c in enumerate(itertools.chain(twice_in_block_cases(), bound_twice_cases())):
         if i % ctx.nshards == ctx.shard:
             yield c
     for i in range(ctx.budget(3000, 400_000)):
